@@ -233,6 +233,11 @@ func runC04(c *Ctx) {
 						x.Data["tags"] = []interface{}{"inner-tag"}
 					}
 				}
+				if x.Data != nil && x.Type != "" && g.rng.Intn(3) == 0 {
+					// ... and "version": in a version-1 generic token that is the application's own number (the token's
+					// version is 1 because it names its kind at the top level); the re-encoded token is version 2
+					x.Data["version"] = []interface{}{3.0, 7.0, 1e9, 2.5, "1.4.2", -1.0}[g.rng.Intn(6)]
+				}
 				src, s = x, kr.by[[]string{"operator", "account", "user", "server", "cluster"}[g.rng.Intn(5)]]
 			}
 			if kind != "generic" {
@@ -252,6 +257,21 @@ func runC04(c *Ctx) {
 			c.sum.ImplChecks++
 			if err != nil {
 				inp["error"] = err.Error()
+				if gx, ok := src.(*v1.GenericClaims); ok && gx.Data != nil {
+					if pv, planted := gx.Data["version"]; planted {
+						if f, isNum := pv.(float64); !isNum || f != float64(int64(f)) {
+							// the recorded finding K5, and nothing else: without the planted entry the same claims migrate
+							delete(gx.Data, "version")
+							if t2, e2 := gx.Encode(s.kp); e2 == nil {
+								if d2, e3 := jwt.Decode(t2); e3 == nil && dynKind(d2) == kind {
+									inp["known"], inp["planted_version"] = []string{"K5"}, fmt.Sprint(pv)
+									c.violation("C04 known: K5", inp)
+									continue
+								}
+							}
+						}
+					}
+				}
 				c.violation("C04: the v2 decoder refuses a token produced by the v1 encoder", inp)
 				continue
 			}
